@@ -426,6 +426,14 @@ fn uow_main(plan: &Value, log: ULog) {
                     log.log(UK::ReopenResult { slot, was_none });
                 }
             }
+            "wait_marker" => {
+                // the owner waits until the marker slot's guard is gone: a marker has no fields, but it *is* a value -
+                // a guard that was dropped normally has delivered it
+                if let Some(o) = owner.as_mut() {
+                    let got = detsim::future::block_on(o.s3.wait_for_data()).is_some();
+                    log.log(UK::WaitData { slot: 3, got: if got { Some(1) } else { None } });
+                }
+            }
             "wait_data" => {
                 if let Some(o) = owner.as_mut() {
                     if jb(op, "cancel", false) {
@@ -720,6 +728,11 @@ pub fn check_c13(h: &[UEv]) -> Option<Violation> {
             UK::ReopenResult { slot, was_none: false } => {
                 return Some(Violation::new("slot_opened_twice", format!("slot {slot} could be opened a second time")));
             }
+            UK::WaitData { slot: 3, got } => {
+                if got.is_none() {
+                    return Some(Violation::new("wait_for_data_wrong", "wait_for_data on the marker slot returned nothing although its guard was dropped normally (a value without fields is still a value)"));
+                }
+            }
             UK::WaitData { got, .. } => {
                 // the generator only waits when the slot-1 guard is dropped normally by another thread
                 if let Some(g) = m.kinds.iter().find(|(o, k)| k.starts_with("slot_") && slot_no(h, **o) == 1).map(|(o, _)| *o) {
@@ -996,10 +1009,22 @@ pub fn gen_uow(rng: &mut Rng, slots: bool) -> Value {
         if let Some(ow_pos) = main_ops.iter().position(|o| matches!(js(o, "op", ""), "release_owner" | "to_handle")) {
             let id = 10_000 + (pk / 4) % 100;
             let mode = ["wait", "wait", "delay", "discard"][(pk / 400 % 4) as usize];
-            main_ops.insert((pk / 1600) as usize % (ow_pos + 1), json!({"op":"open_slot","slot":3,"mode":mode,"obj":id}));
+            let open_at = (pk / 1600) as usize % (ow_pos + 1);
+            main_ops.insert(open_at, json!({"op":"open_slot","slot":3,"mode":mode,"obj":id}));
             let op = json!({"op":"drop","obj":id});
             let who = (pk / 6400) as usize % droppers.len().max(1);
-            if droppers.is_empty() { main_ops.push(op) } else { let at = (pk / 25600) as usize % (droppers[who].len() + 1); droppers[who].insert(at, op) }
+            if droppers.is_empty() {
+                main_ops.push(op)
+            } else {
+                let at = (pk / 25600) as usize % (droppers[who].len() + 1);
+                droppers[who].insert(at, op);
+                // half of the time the owner waits for the marker before it is released (another thread drops the guard;
+                // nothing that thread has to do first may depend on the owner's later operations)
+                if (pk / 102_400) % 2 == 0 && style != 0 && droppers[who][..at].iter().all(|o| js(o, "op", "") != "drop") {
+                    let rel = main_ops.iter().position(|o| js(o, "op", "") == "release_owner").unwrap_or(main_ops.len());
+                    main_ops.insert(rel, json!({"op":"wait_marker"}));
+                }
+            }
         }
     }
     // one plan in 500: the entry has 1 030 - 1 330 flush guards alive at once (created by the owner in one go and
